@@ -247,6 +247,9 @@ func genEqPair(t *rapid.T, optSets []string, withPrecision bool) PairCase {
 		if gen.Chance(t, "longNumbers", 8) {
 			// a long list of numbers, a few of them moved by less than eps
 			n := gen.Int(t, "nNumbers", 60, 150)
+			if gen.Chance(t, "veryLong", 15) {
+				n = gen.Int(t, "nVeryLong", 1024, 1200)
+			}
 			l := make([]val.V, n)
 			for i := range l {
 				l[i] = float64(i%7) + 0.25
